@@ -626,6 +626,93 @@ pub fn raresearch(what: &str, tries: u64) -> i32 {
             }
             std::fs::write(format!("{root}/witnesses/sib_valid.json"), serde_json::to_string_pretty(&json!({"how": "messages 'sib-valid-<i>' for which the zero-t1 forgery (rho = 42^32, z = small_z(9), no hints, pure mode, empty context) is a valid signature whose commitment hash makes SampleInBall squeeze the most index bytes", "witnesses": out})).unwrap()).unwrap();
         }
+        // normal-mode signing, secret-only variation (C14): private keys that differ ONLY in s1 (rho, K, tr, s2, t0 shared) see
+        // the same y, w, c-tilde, c, r0, c*t0 and hints in every attempt; only z = y + c*s1 differs. Groups of such keys with
+        // the same rejection sequence (as computed by the reference), containing at least one z-norm rejection, therefore
+        // have an identical public transcript and must execute identical traces.
+        "ctpair" => {
+            let mut out = Vec::new();
+            for p in refmodel::ALL_PARAMS {
+                let base = refmodel::keygen_internal(p, &crate::alpha::counter32(0, "ctpair-base", 0));
+                let nkeys = 24usize;
+                let keys: Vec<Vec<u8>> = (0..nkeys)
+                    .map(|j| {
+                        let other = refmodel::keygen_internal(p, &crate::alpha::counter32(0, "ctpair-s1", j as u64));
+                        refmodel::sk_encode(p, &base.rho, &base.key, &base.tr, &other.s1, &base.s2, &base.t0)
+                    })
+                    .collect();
+                let mut found = 0;
+                for mi in 0..tries {
+                    let msg = format!("ctpair-{mi}");
+                    let mp = refmodel::format_message(refmodel::Mode::Pure, msg.as_bytes(), b"").unwrap();
+                    let seqs: Vec<(String, Vec<usize>)> = keys
+                        .par_iter()
+                        .map(|k| {
+                            let info = refmodel::sign_internal_ctx(&refmodel::SkCtx::new(p, k), &mp, &[0u8; 32], &refmodel::SignOpts::default()).1;
+                            (info.rejects.iter().map(|r| format!("{r:?}")).collect::<Vec<_>>().join(","), info.first_bad_z)
+                        })
+                        .collect();
+                    let mut groups: std::collections::BTreeMap<&String, Vec<usize>> = Default::default();
+                    for (j, s) in seqs.iter().enumerate() {
+                        groups.entry(&s.0).or_default().push(j);
+                    }
+                    for (seq, members) in groups {
+                        // the keys of a group must disagree on WHERE z first leaves the bound (that position is the secret-dependent
+                        // quantity an early-exit test would reveal), while agreeing on the public rejection sequence
+                        let positions: std::collections::BTreeSet<&Vec<usize>> = members.iter().map(|&j| &seqs[j].1).collect();
+                        if members.len() >= 3 && positions.len() >= 2 {
+                            out.push(json!({"set": p.id, "msg": msg, "rejects": seq, "s1_seed_indices": members, "distinct_first_bad_z_position_vectors": positions.len()}));
+                            found += 1;
+                        }
+                    }
+                    if found >= 4 {
+                        break;
+                    }
+                }
+                println!("ML-DSA-{}: {found} groups", p.id);
+            }
+            std::fs::write(format!("{root}/witnesses/ct_paired_s1.json"), serde_json::to_string_pretty(&json!({"how": "base key = KeyGen_internal(counter32(0,'ctpair-base',0)); key j = base with the s1 section of KeyGen_internal(counter32(0,'ctpair-s1',j)); pure mode, empty context, rnd = 0^32; groups of keys with the same reference rejection sequence containing a z-norm rejection", "base_seed": refmodel::hex(&crate::alpha::counter32(0, "ctpair-base", 0)), "s1_seeds": (0..24u64).map(|j| refmodel::hex(&crate::alpha::counter32(0, "ctpair-s1", j))).collect::<Vec<_>>(), "groups": out})).unwrap()).unwrap();
+        }
+        // ExpandA: key-generation seeds for which one RejNTTPoly call rejects the most candidates (consumes the most XOF bytes)
+        "expanda" => {
+            let mut out = Vec::new();
+            for p in refmodel::ALL_PARAMS {
+                let chunk = 1u64 << 16;
+                let mut best: Vec<(usize, u64)> = Vec::new();
+                let mut base = 0u64;
+                while base < tries {
+                    let mut b: Vec<(usize, u64)> = (base..base + chunk)
+                        .into_par_iter()
+                        .map(|i| {
+                            let xi = crate::alpha::counter32(0, "expanda", i);
+                            let seed128 = refmodel::h(&[&xi, &[p.k as u8], &[p.l as u8]], 128);
+                            let mut mx = 0usize;
+                            for r in 0..p.k {
+                                for c in 0..p.l {
+                                    let mut rp = seed128[..32].to_vec();
+                                    rp.push(c as u8);
+                                    rp.push(r as u8);
+                                    let mut st = refmodel::RejStats::default();
+                                    let _ = refmodel::rej_ntt_poly_stats(&rp, &mut st);
+                                    mx = mx.max(st.bytes_used);
+                                }
+                            }
+                            (mx, i)
+                        })
+                        .filter(|x| x.0 >= 768 + 12)
+                        .collect();
+                    best.append(&mut b);
+                    best.sort_unstable_by(|a, b| b.cmp(a));
+                    best.truncate(4);
+                    base += chunk;
+                }
+                println!("ML-DSA-{} ExpandA tries={tries}: most bytes per polynomial {best:?}", p.id);
+                for (bytes, i) in best {
+                    out.push(json!({"set": p.id, "bytes": bytes, "rejected_candidates": (bytes - 768) / 3, "seed": refmodel::hex(&crate::alpha::counter32(0, "expanda", i))}));
+                }
+            }
+            std::fs::write(format!("{root}/witnesses/expand_a_long.json"), serde_json::to_string_pretty(&json!({"how": "counter seeds (tag expanda) whose ExpandA contains the RejNTTPoly call that rejects the most candidates", "witnesses": out})).unwrap()).unwrap();
+        }
         // ExpandS (eta = 4): seeds whose RejBoundedPoly consumes the most bytes
         "expands" => {
             let p = &refmodel::P65;
